@@ -473,6 +473,93 @@ def strip_attrs_and_docs(txt: str, cfg=None) -> str:
     return ''.join(out)
 
 
+def all_fns(src: str, m: str = None, lo: int = 0, hi: int = None, acc=None):
+    """every fn item with a body, at any nesting depth of modules / impls / traits"""
+    if m is None:
+        m = mask(src)
+    if acc is None:
+        acc = []
+    for it in items(src, lo, hi if hi is not None else len(src), m):
+        if it.kind == 'fn' and it.body is not None:
+            acc.append(it)
+        elif it.kind in ('impl', 'mod', 'trait') and it.body is not None:
+            all_fns(src, m, it.body[0], it.body[1], acc)
+    return acc
+
+
+def split_args(txt: str):
+    """split a call's argument text at top-level commas"""
+    m = mask(txt)
+    parts, depth, cur = [], 0, ''
+    for ch_m, ch in zip(m, txt):
+        if ch_m in '([{':
+            depth += 1
+        elif ch_m in ')]}':
+            depth -= 1
+        if ch_m == ',' and depth == 0:
+            parts.append(cur)
+            cur = ''
+        else:
+            cur += ch
+    if cur.strip():
+        parts.append(cur)
+    return [p.strip() for p in parts]
+
+
+def inline_helper(src: str, target: Item, helper: Item):
+    """Rule R2: replace every call of `helper` inside the body of `target` by a block that binds the parameters and
+    contains the helper's body. Only for helpers whose body cannot leave early (no `return`, no `?`) and whose
+    parameters are plain `name: Type` (plus an optional `&self` / `&mut self` receiver, calls written `self.f(..)`).
+    Returns (new_src, number_of_call_sites) or raises ScanError when the helper is outside this subset."""
+    m = mask(src)
+    hb = m[helper.body[0]:helper.body[1]]
+    if re.search(r'\breturn\b', hb) or '?' in hb:
+        raise ScanError('helper %s can leave early (return / ?): not inlinable' % helper.name)
+    if re.search(r'\b%s\s*\(' % re.escape(helper.name), hb):
+        raise ScanError('helper %s is recursive' % helper.name)
+    header = src[helper.start:helper.header_end]
+    hm = m[helper.start:helper.header_end]
+    po = hm.index('(')
+    pc = match_close(hm, po)
+    params = split_args(header[po + 1:pc])
+    has_self = False
+    binds = []
+    for prm in params:
+        if re.match(r'^(&\s*(mut\s+)?)?(mut\s+)?self$', prm.replace("'_ ", '')):
+            has_self = True
+            continue
+        mm = re.match(r'^(mut\s+)?(\w+)\s*:\s*(.+)$', prm, re.S)
+        if not mm:
+            raise ScanError('helper %s: parameter %r is not `name: Type`' % (helper.name, prm))
+        binds.append((mm.group(1) or '', mm.group(2), mm.group(3).strip()))
+    body = src[helper.body[0]:helper.body[1]]
+    lo, hi = target.body
+    out = []
+    pos = lo
+    n = 0
+    pat = re.compile(r'(?<![\w.])((?:self\s*\.\s*)|(?:(?:Self|\w+)\s*::\s*))?%s\s*\(' % re.escape(helper.name))
+    for mt in pat.finditer(m, lo, hi):
+        if mt.start() < pos:
+            continue
+        recv = (mt.group(1) or '').replace(' ', '')
+        if has_self != recv.startswith('self.'):
+            continue
+        op = mt.end() - 1
+        cl = match_close(m, op)
+        args = split_args(src[op + 1:cl])
+        if len(args) != len(binds):
+            raise ScanError('helper %s: call with %d arguments, %d parameters' % (helper.name, len(args), len(binds)))
+        block = '{ ' + ''.join('let %s%s: %s = %s; ' % (mu, nm, ty, a) for (mu, nm, ty), a in zip(binds, args)) + '{' + body + '} }'
+        out.append(src[pos:mt.start()])
+        out.append(block)
+        pos = cl + 1
+        n += 1
+    if n == 0:
+        raise ScanError('helper %s: no call site found in %s' % (helper.name, target.name))
+    out.append(src[pos:])
+    return src[:lo] + ''.join(out), n
+
+
 def blank_cfg(src: str, cfg) -> str:
     """E3 for function bodies: every `#[cfg(..)]` attribute is evaluated for the default feature set; a disabled one is
     blanked together with the statement / item / field it decorates, an enabled one is blanked alone. Length and line
